@@ -250,11 +250,11 @@ Definition cb_slot (c : cfg) (a : Z) (s : st) : st :=
     let '(s1, u) := uptime_msec s in
     let diff := (u - s_last x) mod 18446744073709551616 in
     if s_left x <=? diff then
-      (* expired: finish callback (devconn), then the slot is released *)
-      let s2 := emit (GFinish (now s1) (s_chan x) (s_target x) (g_t0 x) (g_dur x) (g_u0 x) u) s1 in
-      let '(s3, _) := chan_set_value c (s_gpio x) (if s_target x =? 0 then LO else HI) (s_chan x) s2 in
+      (* expired: finish callback (devconn), then the slot is released (the ghost record is written with the release) *)
+      let '(s3, _) := chan_set_value c (s_gpio x) (if s_target x =? 0 then LO else HI) (s_chan x) s1 in
       let s4 := t2_set (s_chan x) 0 s3 in
-      set_slots (upd (slots s4) (Z.to_nat a) (slot_release x u (now s1))) s4
+      set_slots (upd (slots s4) (Z.to_nat a) (slot_release x u (now s1)))
+                (emit (GFinish (now s1) (s_chan x) (s_target x) (g_t0 x) (g_dur x) (g_u0 x) u) s4)
     else
       let left := u32 (s_left x - diff) in
       let s3 := t2_set (s_chan x) left s1 in
